@@ -79,7 +79,9 @@ def checkState (h : HCtx) (s : St) (opProps : String) : List Fail :=
   chk (decide s.OuterCycleOK) (p "C02,C14") "OuterCycleOK" (fun _ => "") ++
   chk (decide s.StarsOK) (p "C02") "StarsOK" (fun _ => "") ++
   chk (decide s.NoDupEdges) (p "C02") "NoDupEdges" (fun _ => "") ++
-  chk (decide s.CcwFaces) (p "C02") "CcwFaces" (fun _ => "") ++
+  -- (a plain Delaunay triangulation with a clockwise face or a site inside a circumcircle has no
+  -- Voronoi dual: these two clauses also count for C18 there)
+  chk (decide s.CcwFaces) (p (if s.isCdt then "C02" else "C02,C18")) "CcwFaces" (fun _ => "") ++
   -- hypotheses of the locate soundness theorem (C09): checked on every implementation state
   chk (decide s.CcwAllEdges) (p "C02,C09") "CcwAllEdges" (fun _ => "") ++
   chk (decide s.FaceTriples) (p "C02,C09") "FaceTriples" (fun _ => "") ++
@@ -108,7 +110,7 @@ def checkState (h : HCtx) (s : St) (opProps : String) : List Fail :=
       (if s.flagCount == 0 then
         chk (decide s.GloballyDelaunay) (p "C03") "GloballyDelaunayNoConstraints" (fun _ => "") else []))
    else
-    chk (decide s.GloballyDelaunay) (p "C01") "GloballyDelaunay" (fun _ => ""))
+    chk (decide s.GloballyDelaunay) (p "C01,C18") "GloballyDelaunay" (fun _ => ""))
 
 def checkAbs (s : St) (a : AState) (opProps : String) : List Fail :=
   let p := fun (base : String) => if opProps == "" then base else base ++ "," ++ opProps
